@@ -88,8 +88,9 @@ def replay_r_history(args: tuple[list[dict[str, str]], tuple[str, str]]) -> dict
     partial = served = False
     for w in worlds:
         t.apply(w)
-        r = W.run_build(src, cache_dir=cache, store=store, fmt=fmt, tick=t.tick); t.tick = r["tick"]
-        c = W.run_build(src, cache_dir=None, record=False)
+        srcs = t.sources()
+        r = W.run_build(src, cache_dir=cache, store=store, fmt=fmt, tick=t.tick, sources=srcs); t.tick = r["tick"]
+        c = W.run_build(src, cache_dir=None, record=False, sources=srcs)
         out["runs"] += 1
         out["trace"].append(r["trace"])
         if r.get("crash") or W.norm(r) != W.norm(c):
@@ -119,11 +120,15 @@ def corpus_worker(args: tuple[dict[str, Any], tuple[str, str]]) -> dict[str, Any
     return r
 
 
+R_DEFAULT = {"a": "a0", "b": "b0", "c": "c0", "c.pyi": "s-", "d": "d-", "p/__init__": "p-", "p/x": "x-", "e": "e-", "@bdir": ""}
+
+
 def minimise_r(worlds: list[dict[str, str]], cfg: tuple[str, str]) -> list[dict[str, str]]:
-    """Delta-minimise a failing R history: drop steps, then revert single-module changes of a step."""
+    """Canonical 1-minimal failing R history: drop steps; revert single-module changes of a step; replace a module that is
+    constant along the history by its default content (absent for the optional ones) -- while it still fails."""
     def fails(ws: list[dict[str, str]]) -> bool:
         return bool(ws) and replay_r_history((ws, cfg))["violation"] is not None
-    cur = list(worlds)
+    cur = [dict(w) for w in worlds]
     changed = True
     while changed:
         changed = False
@@ -135,7 +140,7 @@ def minimise_r(worlds: list[dict[str, str]], cfg: tuple[str, str]) -> list[dict[
         if changed:
             continue
         for i in range(1, len(cur)):
-            for m in cur[i]:
+            for m in sorted(cur[i]):
                 if cur[i][m] != cur[i - 1].get(m):
                     cand = [dict(w) for w in cur]
                     cand[i][m] = cur[i - 1].get(m, cand[i][m])
@@ -144,16 +149,44 @@ def minimise_r(worlds: list[dict[str, str]], cfg: tuple[str, str]) -> list[dict[
                         break
             if changed:
                 break
+        if changed:
+            continue
+        for m in sorted(cur[0]):
+            vals = {w.get(m) for w in cur}
+            dflt = R_DEFAULT.get(m)
+            if len(vals) == 1 and dflt is not None and vals != {dflt}:
+                cand = [dict(w, **{m: dflt}) for w in cur]
+                if fails(cand):
+                    cur = cand; changed = True
+                    break
     return cur
 
 
-def ext_worlds(rnd: random.Random) -> list[dict[str, str]]:
+EXT_DIMS = ["c.pyi", "d", "p/__init__", "p/x", "e", "@bdir"]
+
+
+def ext_world(gen: random.Random) -> dict[str, str]:
+    w = dict(gen.choice(W.all_worlds()))
+    for m in EXT_DIMS:
+        w[m] = gen.choice(sorted(W.EXT_VARIANTS[m]))
+    return w
+
+
+def ext_histories(n: int) -> list[list[dict[str, str]]]:
+    """A FIXED pseudo-random set of 3-4 step histories over catalogue R + stub + package + move + extra importers
+    (the space contains genuine findings, so it must not depend on VERIF_SEED)."""
+    gen = random.Random(20260926)
     res = []
-    for w in W.all_worlds():
-        for s in W.EXT_VARIANTS["c.pyi"]:
-            for d in ("d-", "d0"):
-                x = dict(w); x["c.pyi"] = s; x["d"] = d
-                res.append(x)
+    for _ in range(n):
+        k = gen.choice([3, 4])
+        hsteps = [ext_world(gen)]
+        for _ in range(k - 1):
+            nxt = dict(hsteps[-1])
+            for m in gen.sample(sorted(nxt), gen.choice([1, 1, 2])):
+                pool = sorted(W.VARIANTS.get(m) or W.EXT_VARIANTS[m])
+                nxt[m] = gen.choice([x for x in pool if x not in W.MVARIANTS.get(m, {})])
+            hsteps.append(nxt)
+        res.append(hsteps)
     return res
 
 
@@ -207,18 +240,7 @@ def main(argv: list[str]) -> int:
     pairs = [(a, b) for a in rw for b in rw if a != b]
     if tier == "quick":
         rnd.shuffle(pairs); pairs = pairs[:500]
-    ew = ext_worlds(rnd)
-    multi = []
-    for _ in range(150 if tier == "quick" else 4000):
-        n = rnd.choice([3, 4])
-        hsteps = [rnd.choice(ew)]
-        for _ in range(n - 1):
-            nxt = dict(hsteps[-1])
-            for m in rnd.sample(sorted(nxt), rnd.choice([1, 1, 2])):
-                pool = W.VARIANTS.get(m) or W.EXT_VARIANTS[m]
-                nxt[m] = rnd.choice([x for x in pool if x not in W.MVARIANTS.get(m, {})])
-            hsteps.append(nxt)
-        multi.append(hsteps)
+    multi = ext_histories(250 if tier == "quick" else 6000)
     rwork = [([a, b], W.CONFIGS[i % 4]) for i, (a, b) in enumerate(pairs)] + [(hs, W.CONFIGS[i % 4]) for i, hs in enumerate(multi)]
     rresults = []
     with ProcessPoolExecutor(16) as pex:
@@ -252,7 +274,7 @@ def main(argv: list[str]) -> int:
             v.violation("corpus:%s" % r["name"], {"kind": "corpus", "case": r["name"], "cfg": r["cfg"]}, "%s (%s/%s): %s" % (r["name"], r["cfg"][0], r["cfg"][1], r["violation"]))
     # ---- 4. trace validation
     scen = [{"sqlite": cfg[0] == "sqlite", "runs": r["trace"]} for (h_, cfg), r in zip(work, results) if r["trace"]][:500]
-    scen += [{"sqlite": cfg[0] == "sqlite", "runs": r["trace"], "mods": ["a", "b", "c", "d"]} for (h_, cfg), r in zip(rwork, rresults) if r["trace"]][:300]
+    scen += [{"sqlite": cfg[0] == "sqlite", "runs": r["trace"], "mods": ["a", "b", "c", "d", "e", "p", "p.x"]} for (h_, cfg), r in zip(rwork, rresults) if r["trace"]][:300]
     for r in cresults:
         if r["traces"] and not r["skipped"] and not r["violation"]:
             mods = sorted({e["mod"] for tr in r["traces"] for e in tr if e["ev"] in ("fresh", "stale")})
@@ -271,8 +293,8 @@ def main(argv: list[str]) -> int:
         "model_histories": len(hists), "model_history_replays": len(work), "r_two_step": len(pairs), "r_multi_step": len(multi),
         "model_drift": [{"cfg": w[1], "drift": d} for w, d in drift[:10]], "model_drift_count": len(drift),
         "rule": "every history TLC emits for Gen_Incremental.cfg (<=3 runs, <=2 edits, <=1 touch over catalogue M) replayed in the store x format "
-                "configurations (quick: rotating, thorough: all four); catalogue R two-step histories (thorough: all 9,120) and seeded 3-4 step "
-                "histories over R + stub + extra importer; non-trivial = history with a run in which some but not all modules were re-analysed "
+                "configurations (quick: rotating, thorough: all four); catalogue R two-step histories (thorough: all 9,120) and a fixed set of 3-4 step "
+                "histories over R + stub + package/submodule + file move + extra importers; non-trivial = history with a run in which some but not all modules were re-analysed "
                 "and a run with diagnostics",
         "samples": [{"history": [[e["ev"], e["mod"], e["v"]] for e in work[0][0]], "cfg": work[0][1], "observed": results[0]["obs"]},
                     {"r_history": rwork[-1][0], "cfg": rwork[-1][1]}],
